@@ -58,6 +58,12 @@ func (p *Prog) unboxArms(f *ssa.Function) (map[string]*ssa.Function, ssa.CallIns
 	arms := map[string]*ssa.Function{}
 	for _, a := range call.Common().Args[1:] {
 		lit := funcLiteral(a)
+		if lit != nil && lit.Synthetic != "" {
+			// an arm written as a method and passed as a method value
+			if t := boundTarget(lit); t != nil && t != lit {
+				lit = t
+			}
+		}
 		if lit == nil || len(lit.Params) == 0 {
 			return nil, call
 		}
